@@ -206,3 +206,8 @@ class PostprocessConfig:
             "values-of-the-domain-type": floor_int(result["x"]) == result["x"] and result["x"] - 0.5 <= old.config["x"] and old.config["x"] <= result["x"] + 0.5 and result["lr"] == old.config["lr"],
             "member-stays-member": implies(old.self.config_space["x"].lower <= old.config["x"] and old.config["x"] <= old.self.config_space["x"].upper, old.self.config_space["x"].lower <= result["x"] and result["x"] <= old.self.config_space["x"].upper),
         }
+
+
+from pyvc.native import native_monitor  # noqa: E402
+
+EXTRA_CHECKS = [native_monitor("C06", "contracts.c06_native", "monitor_suggestions", "suggestions", "about 2050 (thorough 7050) scenarios: random / grid / GP / Hyperband / DEHB / PBT suggesters over 35 enumerated and 12 (40) random finite spaces (<= 40 configurations, run until exhausted), mixed and infinite spaces, 6 (10) points_to_evaluate variants, histories with finished / failed / pending trials; reference membership and enumeration built from the domain specs only")]
